@@ -23,6 +23,7 @@ TLC decides every verdict; the Fraction arithmetic below only GENERATES inputs (
 import itertools
 import math
 import random
+import time
 from fractions import Fraction
 from functools import partial
 
@@ -144,7 +145,7 @@ def rec_bsl_class():
     return RecBSL
 
 
-MH_DEF = dict(ev="", E=[], pE=[], cE=[], pq=[1, 1], cq=[1, 1], cz=False, tb=True, res="ok", th=[], tt=[], rt1=[], rt2=[],
+MH_DEF = dict(ev="", E=[], E2=[], pE=[], cE=[], pq=[1, 1], cq=[1, 1], cz=False, tb=True, res="ok", th=[], tt=[], rt1=[], rt2=[],
               x=[], err=[], out=0, ores="val", jc=[], jp=[], nj=0)
 
 
@@ -190,10 +191,11 @@ def record_mh(sc):
                         err.append(int(max(-2e9, min(2e9, round(d)))) if d == d else 2000000000)
                     events.append(mh_event(ev="invr", x=it["x"], err=err))
                 elif kind == "jac":
-                    E = [fr(e) for e in it["E"]]
-                    tt = np.array([tt_float(p, e) for p, e in zip(ps, E)])
-                    r, v = fxv(BSL._jacobian_logit_transform(tt, bound))
-                    events.append(mh_event(ev="jac", E=it["E"], ores=r, out=v))
+                    # only DIFFERENCES of log J enter the property: log J(E) - log J(E2)
+                    t1 = np.array([tt_float(p, fr(e)) for p, e in zip(ps, it["E"])])
+                    t2 = np.array([tt_float(p, fr(e)) for p, e in zip(ps, it["E2"])])
+                    r, v = fxv(BSL._jacobian_logit_transform(t1, bound) - BSL._jacobian_logit_transform(t2, bound))
+                    events.append(mh_event(ev="jac", E=it["E"], E2=it["E2"], ores=r, out=v))
                 elif kind == "mh":
                     pE = [fr(e) for e in it["pE"]]
                     cE = [fr(e) for e in it["cE"]]
@@ -215,12 +217,12 @@ def record_mh(sc):
                 else:
                     raise ValueError(kind)
         except Hang:
-            events.append(mh_event(ev=kind, res="hang", **{k: it[k] for k in ("E", "pE", "cE", "pq", "cq", "cz", "tb", "x") if k in it}))
+            events.append(mh_event(ev=kind, res="hang", **{k: it[k] for k in ("E", "E2", "pE", "cE", "pq", "cq", "cz", "tb", "x") if k in it}))
         except tlc.MachineryFailure:
             raise
         except Exception as ex:   # raised by elfi on a valid input: an event
             events.append(mh_event(ev=kind, res="raise", exc="%s: %s" % (type(ex).__name__, str(ex)[:80]),
-                                   **{k: it[k] for k in ("E", "pE", "cE", "pq", "cq", "cz", "tb", "x") if k in it}))
+                                   **{k: it[k] for k in ("E", "E2", "pE", "cE", "pq", "cq", "cz", "tb", "x") if k in it}))
     for e in events:
         e.setdefault("exc", "")
     return dict(ps=[dict(ty=p[0], a=p[1], b=p[2]) for p in ps], events=events)
@@ -233,7 +235,7 @@ def mh_scenarios(ctx):
     posts = POSTS if not ctx.quick else POSTS[::2] + [POSTS[1]]
     for p in KINDS:
         pts = points_of(p)
-        items = [dict(ev="inv", E=[q(e)]) for e in pts] + [dict(ev="jac", E=[q(e)]) for e in pts]
+        items = [dict(ev="inv", E=[q(e)]) for e in pts] + [dict(ev="jac", E=[q(e)], E2=[q(e2)]) for e in pts for e2 in pts if e != e2]
         for e1 in pts:
             for e2 in pts:
                 for (a, b) in itertools.product(posts, repeat=2):
@@ -253,7 +255,7 @@ def mh_scenarios(ctx):
         for _j in range(6):
             E = [q(rnd.choice(points_of(p))) for p in ps]
             items.append(dict(ev="inv", E=E))
-            items.append(dict(ev="jac", E=E))
+            items.append(dict(ev="jac", E=E, E2=[q(rnd.choice(points_of(p))) for p in ps]))
             items.append(dict(ev="invr", x=[rand_point(rnd, p) for p in ps]))
         for _j in range(10):
             pE = [q(rnd.choice(points_of(p))) for p in ps]
@@ -493,10 +495,10 @@ def lik_scenarios(ctx):
     small = []
     for n in (4, 5):
         for xs in itertools.combinations_with_replacement(range(0, 4 if ctx.quick else 5), n):
-            for y in (0, 1, 2, 5):
+            for y in ((1, 5) if ctx.quick else (0, 1, 2, 5)):
                 small.append(dict(x=[[v] for v in xs], y=[y], s=1, d=1))
     # (2) random 1-D / 2-D data, scales 1, 2, 4
-    n_rand = 2500 if ctx.quick else 30000
+    n_rand = 500 if ctx.quick else 8000
     for _ in range(n_rand):
         d = rnd.choice([1, 2, 2])
         n = rnd.randint(d + 3, 8)
@@ -793,12 +795,12 @@ def run_scenarios(ctx):
     #     every proposal sequence x every low/high pattern of the uniform draws
     lat = [[dict(E=[1, 2], pr=[1, 1], lk=[1, 1]), dict(E=[2, 1], pr=[0, 1], lk=[1, 1]), dict(E=[3, 1], pr=[1, 2], lk=[3, 1])]]
     for props in itertools.product([1, 2, 3], repeat=3):
-        for us in itertools.product([2, 44], repeat=3):
+        for us in (itertools.product([2, 44], repeat=3) if not ctx.quick else [(2, 2, 2), (44, 44, 44), (2, 44, 2), (44, 2, 44)]):
             out.append(scripted_run(rnd, [(0, 0, 4)], True, 4, 2, 1, lat=lat, start=[1], props=[[i] for i in props],
                                     us=[[u, 64] for u in us]))
     n_ex = len(out)
     # (2) random scripted runs: every kind, 1-2 parameters, with / without transform, batch splits, parallel batches
-    n_scr = 150 if ctx.quick else 1500
+    n_scr = 120 if ctx.quick else 1500
     for j in range(n_scr):
         p = rnd.choice([1, 1, 2])
         ps = [rnd.choice(RUN_KINDS) for _ in range(p)]
@@ -832,7 +834,7 @@ def pinned_scenarios():
     out = []
     # F16: Jacobian evaluated at the untransformed point; F17: sign for an upper bound only
     out.append(dict(kind="mh", pin="F16", ps=[[0, 0, 4]], items=[dict(ev="mh", pE=[[1, 3]], cE=[[2, 1]], pq=[1, 1], cq=[1, 1], cz=False, tb=True)]))
-    out.append(dict(kind="mh", pin="F17", ps=[[1, 0, 4]], items=[dict(ev="jac", E=[[2, 1]]),
+    out.append(dict(kind="mh", pin="F17", ps=[[1, 0, 4]], items=[dict(ev="jac", E=[[2, 1]], E2=[[1, 1]]),
                                                                   dict(ev="mh", pE=[[1, 1]], cE=[[2, 1]], pq=[1, 1], cq=[1, 1], cz=False, tb=True)]))
     # F18: BSL.sample cannot run under numpy 2
     lat = [[dict(E=[1, 2], pr=[1, 1], lk=[1, 1]), dict(E=[2, 1], pr=[0, 1], lk=[1, 1]), dict(E=[3, 1], pr=[1, 2], lk=[3, 1])]]
@@ -865,15 +867,18 @@ def check_scenarios(ctx, scs):
         if not by[kind]:
             continue
         mod, rec, chunk = specs[kind]
+        t0 = time.time()
         traces = [rec(sc) for sc in by[kind]]
+        t1 = time.time()
         all_traces[kind] = traces
         verdicts = ctx.validate(mod, traces, chunk=chunk, name=kind)
+        ctx.notes.append("%s: %d traces recorded in %.1fs, validated in %.1fs" % (kind, len(traces), t1 - t0, time.time() - t1))
         for sc, tr, v in zip(by[kind], traces, verdicts):
             evs = tr["events"]
             ctx.trace_events += len(evs)
             if kind == "mh":
                 for e in evs:
-                    ctx.case(("mh", tuple(map(tuple, sc["ps"])), e["ev"], str(e["E"]), str(e["pE"]), str(e["cE"]), str(e["pq"]), str(e["cq"]),
+                    ctx.case(("mh", tuple(map(tuple, sc["ps"])), e["ev"], str(e["E"]), str(e["E2"]), str(e["pE"]), str(e["cE"]), str(e["pq"]), str(e["cq"]),
                               e["cz"], e["tb"], str(e["x"])), nontrivial=(e["ev"] != "mh" or (e["tb"] and e["pE"] != e["cE"])))
             elif kind == "lik":
                 for e in evs:
@@ -957,8 +962,8 @@ def design_runs(ctx):
     runs.append(("MC_BslMh", "mh_neg_uppersign", MH_CFG % (1, "FALSE", "TRUE", invs(["JacobianIsDerivative"])), False, None))
     runs.append(("MC_BslMh", "mh_neg_nojacobian", MH_CFG % (1, "TRUE", "FALSE", invs(["DetailedBalance"])), False, None))
     sl = lambda n, d, vals, ys, sc, coef, pd, iv: SL_CFG % (n, d, vals, ys, sc, coef, tf(pd), invs(iv))
-    runs.append(("MC_SynLik", "sl_d1", sl(5, 1, "0, 1, 3", "0, 1, 2, 5", "1, 2", 0, True, SL_INVS), True, ["Whiten"]))
-    runs.append(("MC_SynLik", "sl_d2", sl(5, 2, "0, 1", "0, 3", "1", 0, True, SL_INVS), True, ["Whiten"]))
+    runs.append(("MC_SynLik", "sl_d1", sl(5, 1, "0, 1, 3", "1, 5", "1, 2", 0, True, SL_INVS), True, ["Whiten"]))
+    runs.append(("MC_SynLik", "sl_d2", sl(5, 2, "0, 1", "3", "1", 0, True, SL_INVS), True, ["Whiten"]))
     runs.append(("MC_SynLik", "sl_neg_f21", sl(5, 2, "0, 1", "0, 3", "1", 1, True, ["ScatterIsScaledCov"]), False, None))
     runs.append(("MC_SynLik", "sl_neg_f32", sl(5, 1, "0, 1, 3", "0, 5", "1", 0, False, ["UnbiasedSupport"]), False, None))
     runs.append(("MC_SynLik", "sl_neg_invariant", sl(4, 1, "0, 1", "0, 3", "1", 0, True, ["WhiteningInvariant"]), False, None))
@@ -970,7 +975,7 @@ def design_runs(ctx):
     if not ctx.quick:
         runs.append(("MC_BslMh", "mh_dim2", MH_CFG % (2, "TRUE", "TRUE", invs(MH_INVS)), True, mh_act))
         runs.append(("MC_SynLik", "sl_d1_big", sl(6, 1, "0, 1, 2, 4", "0, 1, 3, 6", "1, 2, 4", 0, True, SL_INVS), True, ["Whiten"]))
-        runs.append(("MC_SynLik", "sl_d2_big", sl(5, 2, "0, 1, 2", "0, 3", "1", 0, True, SL_INVS), True, ["Whiten"]))
+        runs.append(("MC_SynLik", "sl_d2_y", sl(5, 2, "0, 1", "0, 3", "1", 0, True, SL_INVS), True, ["Whiten"]))
         runs.append(("MC_SynLik", "sl_d2_n6", sl(6, 2, "0, 1", "-1, 2", "1, 2", 0, True, SL_INVS), True, ["Whiten"]))
         runs.append(("BslRound", "br_n6", BR_CFG % (6, 3, 3, "TRUE", "TRUE", invs(BR_INVS, "Terminates")), True, br_act))
         runs.append(("BslRound", "br_n7", BR_CFG % (7, 2, 4, "TRUE", "TRUE", invs(BR_INVS, "Terminates")), True, br_act))
